@@ -47,7 +47,7 @@ def generate(cluster, mod, rem, workers=3, timeout=1500):
 def plan(tier):
     if tier == 'quick':
         return [('P', 100), ('U', 900), ('X', 3000), ('H', 300)]
-    return [('P', 2), ('U', 60), ('X', 200), ('H', 16)]
+    return [('P', 1), ('U', 40), ('X', 120), ('H', 8)]
 
 
 def _exec_chunk(scens):
@@ -161,7 +161,7 @@ def run(chk):
         # non-trivial: the sanitiser had to change something, or refused
         plain = rec['oc'] == 'value' and rec['cl'] == 'P' and rec['parts'] == [rec['part']]
         chk.case(key=key, nontrivial=not plain)
-        if len(chk.samples) < 6 and i % 1999 == 7:
+        if len(chk.samples) < 6 and i % 499 == 7 and sum(1 for x in chk.samples if x['call'] == CALLS[rec['cl']]) < 2:
             chk.samples.append({'call': CALLS[rec['cl']], 'config': rec['cfg'], 'part': _t(rec['part']), 'url': _t(rec['raw']),
                                 'content_disposition_filename': _t(rec['cd']), 'outcome': rec['oc'], 'chosen': rec.get('path')})
         if m['matched'] < m['len'] and m['bad'] == 0:
